@@ -178,21 +178,23 @@ def diffroi_event(darsia, rng, tid, shape, h, omode, table, comps, T):
 def stack_event(darsia, rng, tid, n, k, timekind, shape, use_append):
     full = tuple(shape)
     imgs = []
+    # spacing of the acquisition times: seconds, half a day, more than a day, fractions of a second
+    step = rng.choice([10.0, 40000.0, 93600.0, 7.25])
     for i in range(k):
         arr = (np.arange(int(np.prod(full)), dtype=float) + 1000 * i).reshape(full)
         kw = dict(space_dim=n, dimensions=[1.0 * s for s in shape], scalar=True)
         if timekind == "dates":
-            kw.update(date=BASE_DATE + datetime.timedelta(seconds=10 * i), reference_date=BASE_DATE)
+            kw.update(date=BASE_DATE + datetime.timedelta(seconds=step * i), reference_date=BASE_DATE)
         elif timekind == "times":
-            kw.update(time=10.0 * i + 3)
+            kw.update(time=step * i + 3)
         imgs.append(darsia.Image(arr, **kw))
 
-    def proj(im):
-        return {"tags": [int(x) for x in im.img.ravel()], "time": -1 if im.time is None else int(round(im.time)),
-                "date": -1 if im.date is None else int(round((im.date - BASE_DATE).total_seconds()))}
+    def proj(im):      # times and dates in milliseconds
+        return {"tags": [int(x) for x in im.img.ravel()], "time": -1 if im.time is None else int(round(1000 * im.time)),
+                "date": -1 if im.date is None else int(round(1000 * (im.date - BASE_DATE).total_seconds()))}
     offset = rng.choice([0, 0, 5, 120]) if (use_append and timekind == "times") else 0
     e = {"tid": tid, "op": "stack", "k": k, "timekind": timekind, "via": "append" if use_append else "stack", "raised": 0,
-         "orig": [proj(im) for im in imgs], "back": [], "offset": offset}
+         "orig": [proj(im) for im in imgs], "back": [], "offset": 1000 * offset, "step": step}
     try:
         if use_append:
             ser = imgs[0].copy()
